@@ -409,7 +409,22 @@ func CalleeName(c *ssa.CallCommon) string {
 	}
 	switch v := c.Value.(type) {
 	case *ssa.Function:
-		return FuncKey(v)
+		// library synonyms: slices.Sort on a []string is sort.Strings (same order, both unstable on equal = identical keys)
+		if k := FuncKey(v); k == "slices.Sort" && len(c.Args) == 1 {
+			if st, ok := c.Args[0].Type().Underlying().(*types.Slice); ok {
+				if b, ok := st.Elem().Underlying().(*types.Basic); ok {
+					switch {
+					case b.Kind() == types.String:
+						return "sort.Strings"
+					case b.Kind() == types.Int:
+						return "sort.Ints"
+					}
+				}
+			}
+			return k
+		} else {
+			return k
+		}
 	case *ssa.Builtin:
 		return "builtin." + v.Name()
 	case *ssa.MakeClosure:
